@@ -38,3 +38,12 @@ Definition records_agree (d q : ascii) (bytes : string) (recs : list (list strin
   | Ok rs => lbeq (lbeq str_eqb) rs recs
   | Raise _ => false
   end.
+
+(* the same with the guard computed from the column objects of the table (name, Some depth for a series column) *)
+Definition write_agrees_cols (sh : list (fl * string)) (d q : ascii) (cols : list (string * colobj))
+                             (names : list string) (rows : list (list val)) (observed : res string) : bool :=
+  match writetxt_dm (shf_of sh) d q cols (names, rows), observed with
+  | Ok a, Ok b => str_eqb a b
+  | Raise e1, Raise e2 => exn_eqb e1 e2
+  | _, _ => false
+  end.
